@@ -13,7 +13,7 @@ RULE = ("per operation (3 generators, 6 smoothers, initial plate, combination fi
         "observed and unobserved plates of assorted sizes (one-sample-per-plate designs, plates cutting across samples, one lumped plate, "
         "fully observed), mostly distinct observation values, random parameters incl. boundary/invalid ones (fractions 0, 1, <0, >1; "
         "sizes 0, negative), superset mappings for hold-outs; PLUS directed families (evidence distribution `directed.*`, clause hit "
-        "counts `clause.*`): hold-outs on plates of 12-30 rows with 13 fractions (every plate has ceil(fraction x size) >= 2: a draw "
+        "counts `clause.*`): hold-outs on plates of 12-30 rows with 11 fixed fractions + random ones (every such plate has ceil(fraction x size) >= 2: a draw "
         "with replacement yields too few rows; the per-plate count oracle is exact), vehicle-only + duplicated conditions through every "
         "operation at arity 2/3, >= 11 generated plates (gen-seg / gen-pair / gen-perm), pairwise at arity 3 and 1, odd plate counts "
         "3,5,6,7,11 with 1-4 top-bottom iterations, min-merge sums exactly at limit / limit+1, optimal-size ties, several samples below "
